@@ -255,3 +255,23 @@ PROPS["C17"] = dict(
     assumptions=["multi-fault sequences are not explored: the property promises nothing for them"],
     budget_s=dict(quick=900, thorough=1800),
 )
+
+# ---------------------------------------------------------------- C06
+PROPS["C06"] = dict(
+    level="exploration",
+    technique="bounded-exhaustive enumeration of token-string families (fragment product, complete d=1 byte neighbourhood of valid tokens, length sweeps, all short strings) on the real checker under ASan/UBSan with block-exact leak accounting",
+    level_text=("(a) the full product of 51 header x 37 payload x 18 signature fragments (one fragment per shortcut in the parser and "
+                "decoder, incl. the correct HS256 MAC) under five checker configurations, plus 2- and 4-segment assemblies; (b) the "
+                "complete single-byte neighbourhood (every position x every byte substituted and inserted, every deletion and "
+                "truncation) of one valid token per configuration; (c) one token per segment length 0-300 and around 4 Ki / 64 Ki; "
+                "(d) every string of length <= 6 over {. = e A - ! 0x80}.  Every call must return (watchdog), without sanitizer "
+                "report or leak, and may return 0 only if ref_token finds two dots, a header that decodes to a JSON object with a "
+                "known string alg, and a payload that decodes to JSON"),
+    level_note="bounded-exhaustive, not 'all byte strings up to tens of kilobytes': random and coverage-guided generation are a different family and are not used",
+    rule=("evaluations = jwt_checker_verify calls judged; non-trivial = calls that returned 0 and passed the well-formedness "
+          "reference (counter); cases group the inputs by family"),
+    runs=_both_providers("parse"),
+    bound=dict(quick="product + assemblies; d=1 neighbourhood at every 2nd (RS256: 6th) position; lengths 0-300, 4 Ki, 64 Ki; all strings <= 6", thorough="d=1 neighbourhood at every position; more lengths"),
+    assumptions=["ref_token uses jansson's json_loadb over the whole decoded length as the definition of JSON"],
+    budget_s=dict(quick=900, thorough=3000),
+)
